@@ -12,6 +12,18 @@ pub mod option_chrono_naive_date_as_int {
             write!(formatter, "an integer that looks like a date")
         }
 
+        fn visit_none<E: Error>(self) -> Result<Self::Value, E> {
+            Ok(None)
+        }
+
+        fn visit_unit<E: Error>(self) -> Result<Self::Value, E> {
+            Ok(None)
+        }
+
+        fn visit_some<D: Deserializer<'de>>(self, deserializer: D) -> Result<Self::Value, D::Error> {
+            deserializer.deserialize_u64(NaiveDateVisitor)
+        }
+
         fn visit_u64<E: Error>(self, value: u64) -> Result<Self::Value, E> {
             if value == 0 {
                 Ok(None)
@@ -30,7 +42,7 @@ pub mod option_chrono_naive_date_as_int {
     where
         D: Deserializer<'de>,
     {
-        deserializer.deserialize_u64(NaiveDateVisitor)
+        deserializer.deserialize_option(NaiveDateVisitor)
     }
 
     pub fn serialize<S>(value: &Option<chrono::NaiveDate>, serializer: S) -> Result<S::Ok, S::Error>
